@@ -207,7 +207,7 @@ func expectedSetOf(c *Case, e *Ev) []LbVal {
 		return nil
 	}
 	cfg := c.Cfg.StakeLB
-	if e.VType == staking.Certificate {
+	if e.VType == uint8(ucon.Certificate) { // the kind as the consensus side numbers it
 		cfg = params.ACoCHTFrequency * 2
 	}
 	si, ok := find(lookbackOf(e.Round, cfg))
